@@ -88,3 +88,93 @@ def build_inputs(case, d):
     sim.write_bam(bam, sc.contigs, sc.reads, [("rg_" + s, s) for s in sc.samples])
     sim.write_vcf(vcf, sc.contigs, sc.samples, recs, fmt_defs={k: FMT_DEFS[k] for k in fmt if k in FMT_DEFS})
     return fa, bam, vcf, sc
+
+
+# ------------------------------------------------------------------------------------------------
+# generator-written phased VCFs with interleaved / nested phase sets (phase input of run Q)
+# ------------------------------------------------------------------------------------------------
+
+def gen_interleaved_case(rng, cli=True):
+    return {"kind": "interleaved", "gen_seed": rng.randrange(1 << 40), "cli": cli,
+            "n_samples": rng.choice([1, 2, 3]), "n_contigs": rng.choice([1, 1, 2]), "n_variants": rng.choice([7, 9, 12, 14]),
+            "enc": rng.choice(["PS", "HP"]), "tag": rng.choice(["PS", "HP"]),
+            "pattern": rng.choice(["interleaved", "interleaved", "nested", "nested", "mixed", "contiguous"]),
+            "v_noise": rng.choice([0.0, 0.1]), "only_snvs": rng.random() < 0.15}
+
+
+def _assign_sets(rng, het_idx, pattern):
+    """{variant index: set number} for the heterozygous variants of one sample on one contig"""
+    n = len(het_idx)
+    if n == 0:
+        return {}
+    if pattern == "mixed":
+        pattern = rng.choice(["interleaved", "nested", "contiguous"])
+    if pattern == "interleaved" or n < 5:
+        k = rng.choice([2, 2, 3])
+        return {i: rng.randrange(k) for i in het_idx}
+    if pattern == "contiguous":
+        cut = sorted(rng.sample(range(1, n), min(2, n - 1)))
+        return {i: sum(j >= c for c in cut) for j, i in enumerate(het_idx)}
+    # nested: A = head + tail, B = a run in the middle, optionally C inside B
+    a = rng.randrange(1, n - 3)
+    b = rng.randrange(a + 2, n)          # B occupies [a, b), at least 2 members
+    out = {}
+    for j, i in enumerate(het_idx):
+        out[i] = 1 if a <= j < b else 0
+    if b - a >= 5 and rng.random() < 0.5:
+        c0 = rng.randrange(a + 1, b - 3)
+        for j in range(c0, c0 + 2):
+            out[het_idx[j]] = 2
+    return out
+
+
+def build_interleaved(case, d):
+    """writes V (unphased variant file) and P (the same variants, phased with interleaved / nested sets);
+    returns (V path, P path, samples)"""
+    rng = random.Random(case["gen_seed"])
+    samples = [f"S{i}" for i in range(case["n_samples"])]
+    contigs = {f"chr{c + 1}": "N" * 5000 for c in range(case["n_contigs"])}
+    enc = case["enc"]
+    recs_v, recs_p = [], []
+    for chrom in contigs:
+        pos, sites = 40, []
+        for _ in range(case["n_variants"]):
+            pos += rng.randrange(25, 90)
+            ref = rng.choice("ACGT")
+            kind = rng.choice(["snv", "snv", "snv", "ins"])
+            alt = rng.choice([x for x in "ACGT" if x != ref]) if kind == "snv" else ref + rng.choice(["A", "CG", "T"])
+            sites.append((pos, ref, alt))
+        per_sample = []
+        for s in samples:
+            gts = [rng.choice([(0, 1)] * 5 + [(0, 0), (1, 1)]) for _ in sites]
+            het_idx = [i for i, g in enumerate(gts) if g == (0, 1)]
+            sets = _assign_sets(rng, het_idx, case["pattern"])
+            ids = rng.sample([3, 17, 250, 999, 4321, 77], 4)
+            per_sample.append((gts, sets, ids))
+        for i, (pos, ref, alt) in enumerate(sites):
+            cv, cp = [], []
+            for gts, sets, ids in per_sample:
+                a, b = gts[i]
+                v_gt = f"{a}/{b}"
+                if rng.random() < case["v_noise"]:
+                    v_gt = rng.choice(["0/0", "1/1", "./.", "0/1"])      # V disagrees with P: not a shared het variant
+                cv.append({"GT": v_gt})
+                call = {"GT": f"{a}/{b}", "PS": ".", "HP": "."}
+                r = rng.random()
+                if i in sets and r < 0.9:
+                    block = ids[sets[i]]
+                    flip = rng.random() < 0.5
+                    if enc == "PS":
+                        call["GT"] = "1|0" if flip else "0|1"; call["PS"] = str(block)
+                    else:
+                        call["HP"] = f"{block}-2,{block}-1" if flip else f"{block}-1,{block}-2"
+                elif a == b and enc == "PS" and r < 0.3:
+                    call["GT"] = f"{a}|{b}"; call["PS"] = str(ids[0])        # phased homozygous call: not eligible
+                cp.append(call)
+            recs_v.append({"chrom": chrom, "pos": pos, "ref": ref, "alts": [alt], "format": ["GT"], "calls": cv})
+            recs_p.append({"chrom": chrom, "pos": pos, "ref": ref, "alts": [alt], "format": ["GT", enc], "calls": cp})
+    os.makedirs(d, exist_ok=True)
+    V, P = os.path.join(d, "V.vcf"), os.path.join(d, "P.vcf")
+    sim.write_vcf(V, contigs, samples, recs_v)
+    sim.write_vcf(P, contigs, samples, recs_p, fmt_defs={enc: FMT_DEFS[enc]})
+    return V, P, samples
